@@ -117,6 +117,8 @@ def layout_isa(draw, address_sizes=(8, 12, 16, 16, 16, 24, 32), zones=False, red
         general['page_size'] = draw(st.sampled_from([1, 2, 4, 8, 16, 64, 256]))
     if draw(st.integers(0, 3)) == 0:
         general['cstr_terminator'] = draw(st.sampled_from([0, 1, 0x7F, 0xFF, 3]))
+    if draw(st.integers(0, 2)) == 0:
+        general['allow_embedded_strings'] = True
     cfg = {'description': 'layout ISA', 'general': general}
     span = min(top, 4095)
     base = draw(st.sampled_from([0, 0, (top - span) // 2, top - span]))
@@ -398,7 +400,12 @@ def general_program(draw, cfg, max_steps=30, extra=(), disable=()):
             chars = [ord(c) for c in text if c != '\\']
             if d(st.integers(0, 3)) == 0:
                 chars.append(['esc', 10, '\\n'])
-            b.add({'t': 'str', 'd': d(st.sampled_from(['.byte', '.cstr', '.asciiz'])), 'chars': chars, 'q': q})
+            if b.isa.embedded_strings and d(st.booleans()):
+                # a bare double-quoted line is a terminated string where the ISA enables it
+                b.add({'t': 'str', 'd': 'bare', 'chars': chars, 'q': '"'})
+                feats.add('embedded-string')
+            else:
+                b.add({'t': 'str', 'd': d(st.sampled_from(['.byte', '.cstr', '.asciiz'])), 'chars': chars, 'q': q})
             feats.add('string')
             continue
         if choice == 'createzone':
